@@ -63,6 +63,10 @@ type Contract struct {
 	Ensures  []Clause
 	BoundReq []Clause
 	CallAssumes []CallAssume
+	Uses       []string // opt-in prelude lemmas (ixshift)
+	Concurrent bool     // second contract of the same function, verified with interference between its calls
+	Interferes []string // ghosts other writers may change between two calls of this function
+	Rely       []Clause // what other writers may do (old() = before their step)
 	InAssumed []Clause // input well-formedness assumed for the body, not checked at call sites (listed)
 	Assumed  []Clause
 	Assigns  []string
@@ -203,13 +207,21 @@ func (eng *Engine) loadContractFile(root, path string) error {
 				}
 				key = strings.TrimSpace(m[2])
 			}
+			concurrent := false
+			if strings.HasPrefix(key, "concurrent ") {
+				concurrent = true
+				key = strings.TrimSpace(strings.TrimPrefix(key, "concurrent "))
+			}
 			fullKey := key
 			if !strings.Contains(key, "/") && !strings.HasPrefix(key, "ext:") {
 				// package-local name
 				fullKey = qualifyKey(strings.TrimPrefix(pkgPath, modulePath+"/"), key)
 			}
 			fullKey = strings.TrimPrefix(fullKey, "ext:")
-			cur = &Contract{Key: fullKey, PkgPath: pkgPath, Results: results, Loops: map[int]*LoopSpec{}, Props: props, File: path, Line: ln.n}
+			if concurrent {
+				fullKey += "#concurrent"
+			}
+			cur = &Contract{Concurrent: concurrent, Key: fullKey, PkgPath: pkgPath, Results: results, Loops: map[int]*LoopSpec{}, Props: props, File: path, Line: ln.n}
 			if old := eng.contracts[fullKey]; old != nil {
 				return fmt.Errorf("%s:%d: duplicate contract for %s", path, ln.n, fullKey)
 			}
@@ -248,6 +260,16 @@ func (eng *Engine) loadContractFile(root, path string) error {
 					cur.Assigns = append(cur.Assigns, a)
 				}
 			}
+		case "interferes":
+			for _, a := range splitTop(rest, ',') {
+				if a = strings.TrimSpace(a); a != "" {
+					cur.Interferes = append(cur.Interferes, strings.TrimSpace(strings.TrimPrefix(a, "ghost ")))
+				}
+			}
+		case "rely":
+			cur.Rely = append(cur.Rely, parseClause(rest, path, ln.n))
+		case "uses":
+			cur.Uses = append(cur.Uses, strings.Fields(rest)...)
 		case "trusted":
 			cur.Trusted = true
 		case "inline":
@@ -298,7 +320,7 @@ func (eng *Engine) loadContractFile(root, path string) error {
 			eng.axioms = append(eng.axioms, &Axiom{Name: c.Label, Expr: c.Expr, PkgPath: pkgPath, Lemma: kw == "lemma"})
 			cur, curLoop = nil, nil
 		case "ghost":
-			if curLoop != nil {
+			if curLoop != nil && strings.Contains(rest, " step ") {
 				// loop ghost: name = init step expr
 				re := regexp.MustCompile(`^(\w+)\s*(smt:\([^=]*\)|[A-Za-z_*\[][\w.\[\]*]*)?\s*=\s*(.*?)\s+step\s+(.*)$`)
 				m := re.FindStringSubmatch(rest)
@@ -420,6 +442,7 @@ type Env struct {
 	depth int
 	bound []string // SMT names of quantified variables in scope
 	noUndef bool
+	hdr   *State // state at the header of the current loop (start of the iteration), for atStart()
 }
 
 var untypedNil = types.Typ[types.UntypedNil]
@@ -1228,6 +1251,14 @@ func (e *Env) callExpr(x *ast.CallExpr) TV {
 		sub := *e
 		sub.st = e.old
 		return sub.eval(x.Args[0])
+	case "atStart":
+		// atStart(e): the value of e at the start of the current loop iteration (loop invariants only)
+		if e.hdr == nil {
+			specErr("atStart() outside a loop invariant")
+		}
+		sub := *e
+		sub.st = e.hdr
+		return sub.eval(x.Args[0])
 	case "forall", "exists":
 		return e.quant(name, x.Args)
 	case "implies":
@@ -1341,6 +1372,14 @@ func (e *Env) callExpr(x *ast.CallExpr) TV {
 		u.s.declFun("closure_fn", []Sort{SInt}, SInt)
 		fid := intLit(u.eng.funcID(ctor.AnonFuncs[0]))
 		return TV{T: or(eq(v.T, fid), and(sx("<", v.T, "0"), eq(sx("closure_fn", v.T), fid))), Ty: tBool}
+	case "optArg":
+		// optArg(v, T): the (first) value captured by the closure v, viewed as type T
+		v := e.eval(x.Args[0])
+		t := e.resolveType(x.Args[1])
+		srt := u.ty.sortOf(t)
+		fn := "closure_b$" + mangle(string(srt))
+		u.s.declFun(fn, []Sort{SInt, SInt}, srt)
+		return TV{T: sx(fn, v.T, "0"), Ty: t}
 	case "alloc":
 		return TV{T: u.alloc(e.st), Ty: tInt}
 	case "fresh":
@@ -1402,6 +1441,11 @@ func (e *Env) callExpr(x *ast.CallExpr) TV {
 	case "hexstr":
 		a := e.eval(x.Args[0])
 		return TV{T: sx("hexstr", a.T), Ty: tString}
+	case "strings.TrimSuffix", "strings.TrimPrefix":
+		a, b := e.eval(x.Args[0]), e.eval(x.Args[1])
+		fn := map[string]string{"strings.TrimSuffix": "str_trimsuffix", "strings.TrimPrefix": "str_trimprefix"}[name]
+		u.s.declFun(fn, []Sort{SStr, SStr}, SStr)
+		return TV{T: sx(fn, a.T, b.T), Ty: tString}
 	case "strings.TrimSpace":
 		a := e.eval(x.Args[0])
 		u.s.declFun("str_trimspace", []Sort{SStr}, SStr)
